@@ -331,7 +331,7 @@ func sameJSON(a, b []byte) bool {
 func init() {
 	harn.Register(&harn.Check{
 		ID:   "C09",
-		Rule: "value round trip: each program of a value grammar (ints incl. 2^62, finite floats, strings with quotes / CJK / control characters / 0x1E, null, nested arrays and dicts, functions with 0-2 parameters, computed values with and without attributes, native functions, values inside containers; and the unrepresentable ones: cycles through array, dict and array<->dict, +-Inf / NaN, bound native methods) is built, serialised and decoded: representable values must come back structurally equal and reach a fixed point, unrepresentable ones must give an error. snapshot points: for every statement list of 2 and (1/4 of) 3 statements (thorough: all 3, and 4 over a core set) from a 33-statement pool (variables of every kind, functions, computed values with attributes, container mutation, aliasing, dice) and every split point: run the prefix on a seeded VM, snapshot variables + generator state, restore into a fresh VM, run the remaining statements on both: error-ness, value, detail text, variables and final generator state must agree after each statement. Distinct by program / statement list.",
+		Rule: "value round trip: each program of a value grammar (ints incl. 2^62, finite floats, strings with quotes / CJK / control characters / 0x1E, null, nested arrays and dicts, dict keys over the text alphabet (C0 controls, DEL, <>&, U+2028/9, quotes, backslash), functions with 0-2 parameters, computed values with and without attributes, native functions, values inside containers; and the unrepresentable ones: cycles through array, dict and array<->dict, +-Inf / NaN, bound native methods) is built, serialised and decoded: representable values must come back structurally equal and reach a fixed point, unrepresentable ones must give an error. snapshot points: for every statement list of 2 and (1/4 of) 3 statements (thorough: all 3, and 4 over a core set) from a 33-statement pool (variables of every kind, functions, computed values with attributes, container mutation, aliasing, dice) and every split point: run the prefix on a seeded VM, snapshot variables + generator state, restore into a fresh VM, run the remaining statements on both: error-ness, value, detail text, variables and final generator state must agree after each statement. Distinct by program / statement list.",
 		Enumerate: c09Enumerate,
 		Run:       c09Run,
 		Budget:    map[string]time.Duration{"quick": 400 * time.Second, "thorough": 40 * time.Minute},
